@@ -101,6 +101,7 @@ def step (st : St) (ws : List String) : St × String :=
     | some k, some bs => (.is { ib := IBuf.create k, src := { data := bs, cur := 0 } } false, "ok")
     | _, _ => (st, "bad-op")
   -- the three stores
+  | .fx _ true, _ => (st, "dead")
   | .fx s dead, ["dump"] => (.fx s dead, "bytes " ++ hexOrDash s.buf)
   | .fx s dead, ws =>
     if dead then (st, "dead") else
@@ -109,6 +110,7 @@ def step (st : St) (ws : List String) : St × String :=
     | some (op, n) =>
       let r := MemFixed.step Arith.gen s op
       if r.1.isUb then (.fx s true, "ub:oob") else (.fx r.2 false, showOut r.1 n r.2.cur)
+  | .ms _ true, _ => (st, "dead")
   | .ms s dead, ["dump"] => (.ms s dead, "bytes " ++ hexOrDash s.buf)
   | .ms s dead, ws =>
     if dead then (st, "dead") else
